@@ -537,6 +537,227 @@ Theorem fix_pre_needed : exists (f : nat -> nat) h, 1 <= h /\
   drawfix nat 0 f 0 h 0%Z (-1)%Z 0%Z (win nat f 0 h) <> win nat f 0 h.
 Proof. exists (fun i => S i), 3. split; [lia|]. vm_compute. discriminate. Qed.
 
+(* ---------- the call sites: every vc_* command that edits the buffer passes vi_drawfix arguments that describe the
+   splice lbuf_edit just made, inside fix_pre, given only the command's own guards and "the cursor line is in the window" ---------- *)
+Section Sites.
+Variable R : Type.
+Variable blank : R.
+Variable line : Type.
+Variable img : option line -> R.
+Notation win := (@win R).
+Notation drawfix := (@drawfix R blank).
+Definition fimg (b : list line) : nat -> R := fun i => img (nth_error b i).
+(* lbuf_edit(xb, text, beg, en): lines beg .. en-1 are replaced by the lines of text *)
+Definition splice (b : list line) (beg en : nat) (ins : list line) : list line := firstn beg b ++ ins ++ skipn en b.
+
+(* the change starts on a row of the window and removes at least one line (every site but the line-wise put) *)
+Lemma site_in_window buf ins W h r1 e :
+  W <= r1 < W + h -> r1 < e -> e <= length buf ->
+  drawfix (fimg (splice buf r1 e ins)) W h (Z.of_nat r1) (Z.of_nat e - 1) (Z.of_nat (length ins)) (win (fimg buf) W h)
+  = win (fimg (splice buf r1 e ins)) W h.
+Proof.
+  intros Hw Hre He. apply (drawfix_splice_is_repaint R blank line img buf ins W h r1 e); try lia.
+  left. split; [exact Hw|left; exact Hre].
+Qed.
+(* the change starts above the window and the buffer shrinks *)
+Lemma site_above_shrinks buf ins W h r1 e :
+  1 <= h -> r1 < W -> length ins < e - r1 -> e <= length buf ->
+  drawfix (fimg (splice buf r1 e ins)) W h (Z.of_nat r1) (Z.of_nat e - 1) (Z.of_nat (length ins)) (win (fimg buf) W h)
+  = win (fimg (splice buf r1 e ins)) W h.
+Proof.
+  intros Hh Hr Hn He. apply (drawfix_splice_is_repaint R blank line img buf ins W h r1 e); try lia.
+  right. left. split; assumption.
+Qed.
+
+(* vi_delete, line mode: lbuf_edit(NULL, r1, r2+1); vi_drawfix(r1, r2, 0, 0).  r1 <= xrow <= r2 (the region of an operator
+   contains the cursor line), the cursor line is in the window *)
+Theorem site_delete_lines buf W h xrow r1 r2 :
+  W <= xrow < W + h -> r1 <= xrow <= r2 -> r2 < length buf ->
+  drawfix (fimg (splice buf r1 (S r2) [])) W h (Z.of_nat r1) (Z.of_nat r2) 0%Z (win (fimg buf) W h)
+  = win (fimg (splice buf r1 (S r2) [])) W h.
+Proof.
+  intros Hw Hr Hl. replace (Z.of_nat r2) with (Z.of_nat (S r2) - 1)%Z by lia.
+  change 0%Z with (Z.of_nat (@length line [])).
+  destruct (le_lt_dec W r1); [apply site_in_window|apply site_above_shrinks]; cbn [length]; lia.
+Qed.
+(* vi_delete, character mode: the lines r1 .. r2 become the one line pref ++ post; vi_drawfix(r1, r2, 1, 0) *)
+Theorem site_delete_chars buf l W h xrow r1 r2 :
+  W <= xrow < W + h -> r1 <= xrow <= r2 -> r2 < length buf ->
+  drawfix (fimg (splice buf r1 (S r2) [l])) W h (Z.of_nat r1) (Z.of_nat r2) 1%Z (win (fimg buf) W h)
+  = win (fimg (splice buf r1 (S r2) [l])) W h.
+Proof.
+  intros Hw Hr Hl. replace (Z.of_nat r2) with (Z.of_nat (S r2) - 1)%Z by lia.
+  change 1%Z with (Z.of_nat (length [l])).
+  destruct (le_lt_dec W r1); [apply site_in_window|apply site_above_shrinks]; cbn [length]; lia.
+Qed.
+(* vi_case (g~ gu gU) and vi_shift (> <): r2-r1+1 lines replaced by as many; vi_drawfix(r1, r2, r2-r1+1, 0).  Holds when the
+   region starts inside the window; see case_above_refuted for a region that starts above it *)
+Theorem site_same_count buf ins W h xrow r1 r2 :
+  W <= xrow < W + h -> W <= r1 <= xrow -> xrow <= r2 -> r2 < length buf -> length ins = S r2 - r1 ->
+  drawfix (fimg (splice buf r1 (S r2) ins)) W h (Z.of_nat r1) (Z.of_nat r2) (Z.of_nat r2 - Z.of_nat r1 + 1)%Z (win (fimg buf) W h)
+  = win (fimg (splice buf r1 (S r2) ins)) W h.
+Proof.
+  intros Hw Hr1 Hr2 Hl Hi. replace (Z.of_nat r2) with (Z.of_nat (S r2) - 1)%Z at 1 by lia.
+  replace (Z.of_nat r2 - Z.of_nat r1 + 1)%Z with (Z.of_nat (length ins)) by lia.
+  apply site_in_window; lia.
+Qed.
+(* vc_put, character-wise register: line xrow becomes the m >= 1 lines of pref ++ register ++ post; vi_drawfix(xrow, xrow, m, 0)
+   (lncnt = linecount - 1).  vc_replace with a character is the case m = 1, with a newline m = cnt + 1 (vi_drawfix(xrow - cnt,
+   xrow - cnt, cnt + 1, 0) after xrow += cnt). *)
+Theorem site_replace_line buf ins W h xrow :
+  W <= xrow < W + h -> xrow < length buf ->
+  drawfix (fimg (splice buf xrow (S xrow) ins)) W h (Z.of_nat xrow) (Z.of_nat xrow) (Z.of_nat (length ins)) (win (fimg buf) W h)
+  = win (fimg (splice buf xrow (S xrow) ins)) W h.
+Proof.
+  intros Hw Hl. replace (Z.of_nat xrow) with (Z.of_nat (S xrow) - 1)%Z at 2 by lia. apply site_in_window; lia.
+Qed.
+(* vc_join: lines xrow .. xrow+cnt-1 (cnt >= 2) become one; vi_drawfix(xrow, xrow + cnt - 1, 1, 0) *)
+Theorem site_join buf l W h xrow cnt :
+  W <= xrow < W + h -> 2 <= cnt -> xrow + cnt <= length buf ->
+  drawfix (fimg (splice buf xrow (xrow + cnt) [l])) W h (Z.of_nat xrow) (Z.of_nat xrow + Z.of_nat cnt - 1)%Z 1%Z (win (fimg buf) W h)
+  = win (fimg (splice buf xrow (xrow + cnt) [l])) W h.
+Proof.
+  intros Hw Hc Hl. replace (Z.of_nat xrow + Z.of_nat cnt - 1)%Z with (Z.of_nat (xrow + cnt) - 1)%Z by lia.
+  change 1%Z with (Z.of_nat (length [l])). apply site_in_window; lia.
+Qed.
+(* vc_put, line-wise register of k >= 1 lines: lbuf_edit(text, xrow, xrow) is a pure insertion before line xrow (for `p`
+   xrow was incremented first, so it may be the row just below the window or one past the last line); the call is
+   vi_drawfix(xrow, xrow, k + 1, 0) -- vi.c's linecount is lines + 1: "line xrow is replaced by the k new lines and itself" *)
+Theorem site_put_lines buf ins W h xrow :
+  1 <= h -> W <= xrow <= W + h -> xrow <= length buf -> 1 <= length ins ->
+  drawfix (fimg (splice buf xrow xrow ins)) W h (Z.of_nat xrow) (Z.of_nat xrow) (Z.of_nat (length ins) + 1)%Z (win (fimg buf) W h)
+  = win (fimg (splice buf xrow xrow ins)) W h.
+Proof.
+  intros Hh Hw Hb Hk.
+  replace (Z.of_nat xrow) with (Z.of_nat (S xrow) - 1)%Z at 2 by lia.
+  replace (Z.of_nat (length ins) + 1)%Z with (Z.of_nat (S (length ins))) by lia.
+  apply (drawfix_is_repaint R blank (fimg buf) (fimg (splice buf xrow xrow ins)) W h xrow (S xrow) (S (length ins))); try lia.
+  - intros i Hi. unfold fimg, splice. f_equal.
+    rewrite nth_error_app1 by (rewrite firstn_length; lia).
+    rewrite <- (firstn_skipn xrow buf) at 2. rewrite nth_error_app1 by (rewrite firstn_length; lia). reflexivity.
+  - intro j. unfold fimg, splice. f_equal.
+    rewrite nth_error_app2 by (rewrite firstn_length; lia). rewrite firstn_length.
+    replace (Nat.min xrow (length buf)) with xrow by lia.
+    rewrite nth_error_app2 by lia.
+    replace (xrow + S (length ins) + j - xrow - length ins) with (S j) by lia.
+    clear. revert buf j. induction xrow as [|x IH]; intros buf j; [reflexivity|].
+    destruct buf as [|y buf]; [reflexivity|]. cbn [skipn plus nth_error]. apply IH.
+  - destruct (Nat.eq_dec xrow (W + h)) as [E|E].
+    + right. right. split; [lia|left; lia].
+    + left. split; [lia|left; lia].
+Qed.
+End Sites.
+
+(* vi_case / vi_shift with a region that starts ABOVE the window (g~k, >k, <1G ... on the first row of a scrolled window): the
+   arguments vi_drawfix(r1, r2, r2-r1+1, 0) lie outside fix_pre and a correct screen is damaged -- 8 lines, window of 3 rows at
+   top 4, lines 3..4 replaced by two other lines: the faithful model shows line 5 twice and loses line 6 *)
+Theorem case_above_refuted : exists (buf ins : list nat) W h r1 r2,
+  W <= r2 < W + h /\ r1 < W /\ r2 < length buf /\ length ins = S r2 - r1 /\
+  drawfix nat 0 (fimg nat nat (fun o => match o with Some x => x | None => 0 end) (splice nat buf r1 (S r2) ins)) W h
+          (Z.of_nat r1) (Z.of_nat r2) (Z.of_nat r2 - Z.of_nat r1 + 1)%Z
+          (win nat (fimg nat nat (fun o => match o with Some x => x | None => 0 end) buf) W h)
+  <> win nat (fimg nat nat (fun o => match o with Some x => x | None => 0 end) (splice nat buf r1 (S r2) ins)) W h.
+Proof.
+  exists [10; 11; 12; 13; 14; 15; 16; 17], [93; 94], 4, 3, 3, 4.
+  repeat split; try (cbn; lia). vm_compute. discriminate.
+Qed.
+
+(* ---------- insert mode: vi_nextline and the preview of vi_change ---------- *)
+Section InsertMode.
+Variable R : Type.
+Variable blank : R.
+Notation win := (@win R).
+Notation nextline := (@nextline R blank).
+Notation drawfix_preview := (@drawfix_preview R blank).
+
+(* vi_nextline on a screen that shows win g xtop h with the cursor line in the window: afterwards the cursor line is the next
+   one, still in the window, its row is blank, the rows above show the same lines and the rows below show the lines that were
+   one row higher -- the window of the buffer with an empty line opened after xrow *)
+Theorem nextline_opens_line g h xtop xrow : 1 <= h -> xtop <= xrow < xtop + h ->
+  let '(t, r, rows) := nextline h xtop xrow (win g xtop h) in
+  r = S xrow /\ t <= r < t + h /\ length rows = h /\
+  forall k, k < h -> nth k rows blank = if t + k =? r then blank else if t + k <? r then g (t + k) else g (t + k - 1).
+Proof.
+  intros Hh Hw. unfold DrawDefs.nextline. destruct (xrow =? xtop + h - 1) eqn:E.
+  - apply Nat.eqb_eq in E. split; [reflexivity|]. split; [lia|].
+    split; [apply del_lines_length, win_length|]. intros k Hk.
+    rewrite (del_lines_spec blank h 0 1 (win g xtop h)) by (try apply win_length; lia).
+    replace (Nat.min 1 (h - 0)) with 1 by lia. replace (0 + 1) with 1 by lia. cbn [firstn app].
+    destruct (Nat.eq_dec k (h - 1)) as [Ek|Ek].
+    + replace (S xtop + k =? S xrow) with true by lia.
+      rewrite app_nth2 by (rewrite skipn_length, win_length; lia). rewrite skipn_length, win_length.
+      replace (k - (h - 1)) with 0 by lia. reflexivity.
+    + replace (S xtop + k =? S xrow) with false by lia. replace (S xtop + k <? S xrow) with true by lia.
+      rewrite app_nth1 by (rewrite skipn_length, win_length; lia). rewrite nth_skipn', win_nth by lia. f_equal. lia.
+  - apply Nat.eqb_neq in E. split; [reflexivity|]. split; [lia|].
+    split; [apply term_room_length, win_length|]. intros k Hk.
+    change 1%Z with (Z.of_nat 1).
+    rewrite (term_room_ins_nth R blank h 1 (S xrow - xtop) (win g xtop h) k blank) by (try apply win_length; lia).
+    destruct (k <? S xrow - xtop) eqn:C1.
+    + apply Nat.ltb_lt in C1. replace (xtop + k =? S xrow) with false by lia. replace (xtop + k <? S xrow) with true by lia.
+      apply win_nth. lia.
+    + apply Nat.ltb_ge in C1. destruct (k <? S xrow - xtop + 1) eqn:C2.
+      * apply Nat.ltb_lt in C2. replace (xtop + k =? S xrow) with true by lia. reflexivity.
+      * apply Nat.ltb_ge in C2. replace (xtop + k =? S xrow) with false by lia. replace (xtop + k <? S xrow) with false by lia.
+        rewrite win_nth by lia. f_equal. lia.
+Qed.
+
+(* vi_drawfix(r1, r2, 1, 1), the preview vi_change draws before reading the text (nothing is edited yet, g = the rows of the
+   buffer as it is; r1 <= cursor line <= r2): the window moves up to r1 if the region starts above it, row r1 is a placeholder
+   (led_printparts overwrites it at once), every other row shows the buffer with the lines r1+1 .. r2 removed *)
+Theorem preview_is_repaint g W h xrow r1 r2 : 1 <= h -> W <= xrow < W + h -> r1 <= xrow <= r2 ->
+  let '(t, rows) := drawfix_preview g W h (Z.of_nat r1) (Z.of_nat r2) 1%Z (win g W h) in
+  t = Nat.min W r1 /\ t <= r1 < t + h /\ length rows = h /\
+  forall k, k < h -> t + k <> r1 -> nth k rows blank = if t + k <? r1 then g (t + k) else g (t + k + (r2 - r1)).
+Proof.
+  intros Hh Hw Hr. unfold DrawDefs.drawfix_preview. cbv zeta.
+  set (t := if (Z.of_nat r1 <? Z.of_nat W)%Z then Z.to_nat (Z.of_nat r1) else W).
+  assert (Et : t = Nat.min W r1) by (unfold t; destruct (Z.of_nat r1 <? Z.of_nat W)%Z eqn:E; lia).
+  assert (Ht : t <= r1 < t + h) by lia.
+  replace (clampZ (Z.of_nat r1) (Z.of_nat t) (Z.of_nat t + Z.of_nat h - 1)) with (Z.of_nat r1) by (unfold clampZ; lia).
+  set (r2c := clampZ (Z.of_nat r2) (Z.of_nat t) (Z.of_nat t + Z.of_nat h - 1)).
+  set (room := term_room R blank h (Z.of_nat r1 - r2c - 1 + 1) (Z.to_nat (Z.of_nat r1 - Z.of_nat t)) (win g W h)).
+  assert (Lroom : length room = h) by (apply term_room_length, win_length).
+  set (dneg := r1 <? r2).
+  replace ((1 - (Z.of_nat r2 - Z.of_nat r1 + 1) <? 0)%Z) with dneg by (unfold dneg; lia).
+  replace ((Z.of_nat r1 + 1 <? Z.of_nat t + Z.of_nat h)%Z) with (r1 + 1 <? t + h) by lia.
+  replace (Z.to_nat (Z.of_nat r1 + 1)) with (r1 + 1) by lia.
+  replace (Z.to_nat (Z.of_nat t + Z.of_nat h - (Z.of_nat r1 + 1))) with (t + h - (r1 + 1)) by lia.
+  replace (Z.to_nat (Z.of_nat r1)) with r1 by lia.
+  replace (Z.to_nat (Z.min 1 (Z.of_nat t + Z.of_nat h - Z.of_nat r1))) with 1 by lia.
+  replace (Z.to_nat (- (1 - (Z.of_nat r2 - Z.of_nat r1 + 1)))) with (r2 - r1) by lia.
+  set (X := if dneg && (r1 + 1 <? t + h)
+            then draw_range R (fun i => g (i + (r2 - r1))) t h (r1 + 1) (t + h - (r1 + 1)) room else room).
+  assert (LX : length X = h) by (unfold X; destruct (dneg && _); [rewrite draw_range_length|]; exact Lroom).
+  split; [exact Et|]. split; [exact Ht|]. split; [rewrite draw_range_length; exact LX|].
+  intros k Hk Hne.
+  rewrite (draw_range_nth R g t h r1 1 X k blank) by lia.
+  replace ((r1 - t <=? k) && (k <? r1 - t + 1)) with false by lia.
+  destruct (lt_dec k (r1 - t)) as [Hlt|Hge].
+  - (* above the placeholder: the window did not move, the rows are untouched *)
+    assert (EW : t = W) by lia.
+    replace (t + k <? r1) with true by lia.
+    assert (Hx : nth k X blank = nth k room blank).
+    { unfold X. destruct (dneg && (r1 + 1 <? t + h)) eqn:C; [|reflexivity].
+      apply andb_true_iff in C. destruct C as [_ C]. apply Nat.ltb_lt in C.
+      rewrite (draw_range_nth R _ t h (r1 + 1) (t + h - (r1 + 1)) room k blank) by lia.
+      replace (r1 + 1 - t <=? k) with false by lia. reflexivity. }
+    rewrite Hx. unfold room. rewrite term_room_nth_above by (try apply win_length; lia).
+    rewrite win_nth by lia. f_equal. lia.
+  - replace (t + k <? r1) with false by lia.
+    unfold X, dneg. destruct (r1 <? r2) eqn:D.
+    + (* lines disappear: every row below the placeholder is drawn from further down *)
+      apply Nat.ltb_lt in D. replace (r1 + 1 <? t + h) with true by lia. cbn [andb].
+      rewrite (draw_range_nth R _ t h (r1 + 1) (t + h - (r1 + 1)) room k blank) by lia.
+      replace ((r1 + 1 - t <=? k) && (k <? r1 + 1 - t + (t + h - (r1 + 1)))) with true by lia. reflexivity.
+    + (* one line replaced by one: nothing moves *)
+      apply Nat.ltb_ge in D. cbn [andb]. assert (r2 = r1) by lia. subst r2.
+      assert (EW : t = W) by lia.
+      unfold room. replace (Z.of_nat r1 - r2c - 1 + 1)%Z with 0%Z by (unfold r2c, clampZ; lia).
+      unfold DrawDefs.term_room. cbn. rewrite win_nth by lia. f_equal. lia.
+Qed.
+End InsertMode.
+
 (* ---------- the redraw decision at the tail of vi() ---------- *)
 Section Tail.
 Variable R : Type.
